@@ -381,7 +381,70 @@ def check_locations(ctx, R="C09.lineno"):
     ctx.floor(R, n, 300, "located node constructions in grammar actions")
 
 
+def check_reference(ctx, R="C09.reference"):
+    ctx.rule(
+        R,
+        "agreement with CPython's own PEG grammar (3.11, /verif/ref): every rule of the Python part that exists in both grammars and is "
+        "not in the frozen table of deliberate deviations has CPython's alternatives in CPython's order (PEG choice is ordered, so a "
+        "reordering changes which parse wins); where both actions are a single call of the same helper with plain arguments, the captured "
+        "pieces are passed in the same positions (None / [] / NULL all count as 'empty')",
+    )
+    from .. import refgrammar as rg
+
+    ref = rg.load_reference()
+    g = ctx.grammar
+    common = [r for r in g.rules if r in ref.rules]
+    ctx.floor(R, len(common), 200, "rules shared with the CPython grammar")
+    n_struct = n_act = 0
+    valid = rg.reachable_valid(g.rules)
+    ctx.floor(R, len(valid), 150, "rules reachable from the start rules without an invalid_ rule")
+    for r in common:
+        if r in rg.DEVIATES:
+            continue
+        a, b = rg.shape(g.rules[r]), rg.shape(ref.rules[r])
+        n_struct += 1
+        if a != b:
+            k = next((i for i, (x, y) in enumerate(zip(a, b)) if x != y), min(len(a), len(b)))
+            ctx.finding(
+                R,
+                GRAMFILE,
+                f"{r}: alternatives differ from CPython",
+                f"grammar rule {r} (line ~{g.line_of_rule(r)}): alternative {k + 1} is `{a[k] if k < len(a) else '<missing>'}` where CPython's grammar has "
+                f"`{b[k] if k < len(b) else '<none>'}` ({len(a)} vs {len(b)} alternatives): plain Python code is parsed differently from Python",
+                qualname=r,
+            )
+            continue
+        ok = True
+        if r not in valid:
+            # only used while reporting an error: its AST is never the program's AST
+            ctx.ok(R, GRAMFILE, f"{r}: {len(a)} alternatives as in CPython (error-path rule: actions not compared)", qualname=r)
+            continue
+        for i, (x, y) in enumerate(zip(g.rules[r].rhs.alts, ref.rules[r].rhs.alts)):
+            px, py = rg.norm_py(x.action), rg.norm_c(y.action)
+            cmp_ = rg.comparable(px, py)
+            if cmp_ is not None:
+                cmp_ = (rg.positions(x, cmp_[0]), rg.positions(y, cmp_[1]))
+                n_act += 1
+                if cmp_[0] != cmp_[1]:
+                    px, py = (px[0], cmp_[0]), (py[0], cmp_[1])
+                    ok = False
+                    ctx.finding(
+                        R,
+                        GRAMFILE,
+                        f"{r} alt {i + 1}: {px[0]} arguments differ from CPython",
+                        f"grammar rule {r} (line ~{g.line_of_rule(r)}), alternative {i + 1} `{rg.shape(g.rules[r])[i]}`: the action calls {px[0]}{px[1]} where "
+                        f"CPython's grammar calls {py[0]}{py[1]}: a captured piece ends up in another field of the Python AST",
+                        qualname=r,
+                    )
+        if ok:
+            ctx.ok(R, GRAMFILE, f"{r}: {len(a)} alternatives as in CPython", qualname=r)
+    ctx.floor(R, n_struct, 180, "rules compared structurally with the CPython grammar")
+    ctx.floor(R, n_act, 30, "helper calls compared argument by argument")
+    ctx.note(f"reference grammar: {len(common)} shared rules, {len([r for r in common if r in rg.DEVIATES])} frozen deviations, {n_struct} compared, {n_act} helper calls compared")
+
+
 def check(ctx):
     check_capture(ctx)
     check_visitors(ctx)
     check_locations(ctx)
+    check_reference(ctx)
